@@ -412,6 +412,8 @@ class C15(Check):
                     for line in raw.splitlines():
                         r = PenlogRecord.parse_json(line)
                         datas.append(r.data)
+                    if plan["hooks"] and plan["pre_hook"] == "fail" and not any("pre-hook failed" in d for d in datas):
+                        violation(res, "C15/hook", "C15/hook-failure-not-reported:pre", "the pre-hook exited 3 but the log holds no record reporting it")
                     it = iter(datas)
                     missing = [m for m in beh.markers if not any(d == m for d in it)]
                     if missing:
